@@ -1,4 +1,49 @@
-// slice `json_writer`: the JSON writer functions of solution/src/json_serialisation.rs (C03; A-json of C01 / C05)
+// slice `json_writer`: the JSON writer functions of solution/src/json_serialisation.rs under contract
+// (C03 vehicle perspective and trip perspective; A-json of C01: "the writer emits the tour it is given";
+// A-json of C05: "the writer emits the cycles it is given", incl. empty and one-vehicle cycles).
+// Verified verbatim: vehicle_to_json, fleet_to_json, departure_segments_to_json, maintenance_slots_to_json,
+// depot_usage_to_json, depots_usage_to_json, schedule_to_json (+ the small accessors listed below).
+//
+// Texts are opaque (A-text, env/json_writer_shim.vs): `iso(t)` = DateTime::as_iso, `vid_text(v)` =
+// VehicleIdx::to_string, `int_text(i)` = i32::to_string, `loc_name` = Locations::get_id (verified), ids =
+// the views of the `String` fields.  The contracts say WHICH value is rendered WHERE.
+//
+// ASSUMPTIONS introduced by this slice (all in env/json_writer_shim.vs unless noted):
+//   A-text   axiom_to_string_{string,i32,vehicle_idx}: fix vstd's abstract `to_string_from_display_ensures`
+//            (String::to_string is the identity on the view; i32 / VehicleIdx render to int_text / vid_text);
+//            axiom_string_add_{req,obeys,spec}: `String + &str` has no precondition and concatenates;
+//            DateTime::as_iso stub: r@ == iso(*self).
+//   R10      `//@add-ufcs` on vehicle_to_json: `A + &B` is emitted as `std::ops::Add::add(A, &B)` (Verus
+//            0.2026.09.13 has an internal error on the operator form of any `impl Add<&T>`).
+//   A-iter   stubs returning SeqIter: Tour::all_nodes_iter (= nodes), Schedule::vehicles_iter (= the type's
+//            sorted id list; requires the key), Transition::cycles_iter (= cycles), TransitionCycle::iter
+//            (= cycle), TrainFormation::iter (= formation), VehicleTypes::iter (= ids_sorted),
+//            Network::service_nodes (= the type's list; requires the key), Network::maintenance_nodes,
+//            Network::depots_iter (= `depot_order`, every key of the depot table exactly once);
+//            plus SeqIter::{map, collect, tuple_windows} of env/seqiter.vs.
+//   A-stub   Schedule::tour_of (contract text of slices/reassign.vs; verified in slice depot_usage),
+//            VehicleTypes::get (contract text of env/limits_fns.vs),
+//            Schedule::number_of_vehicles_of_same_type_spawned_at_custom_usage (verified in slice admission,
+//            same contract text), schedule_dead_head_trip (verified in slice json_out, same contract text),
+//            env/model_fns.vs included trusted (Node accessors, Network::node; verified in slice network).
+//   A-im     im::HashMap::get (env/im_shim.vs), im::HashSet opaque with view Set.
+//   A-serde  serde_json::to_value(ScheduleJson) never fails; `doc_of(value)` is the struct it was given.
+// PRECONDITIONS the callers must guarantee (panic freedom; all are parts of schedule validity C10 or of
+// how Network::new builds its indices, none is proved here):
+//   vehicle_ok   the vehicle has a well-formed real tour over the schedule's network (`tour_of(..).unwrap()`,
+//                `as_depot`), at most 2^17+2 nodes (i32 trip counter), both depot nodes belong to depots of
+//                the depot table (A-depots, `get_depot` unwrap), and the instance does not start within one
+//                dead-head duration after 1.1. of year 0 (first leg only; later legs are proved).
+//   type_ok      the type has a vehicle list, a transition and a VehicleType entry; its vehicles are vehicle_ok.
+//   segments_pre / slots_pre   the per-type index lists service nodes of the network, `maintenance_nodes`
+//                lists maintenance nodes (A-index, soundness half), every listed node has a train-formation
+//                entry (C10), every listed type is a type of the network.
+//   usage_pre    every listed type is a type of the network; spawn counts fit u32.
+//   A-index (completeness half, `a_index`): every service / maintenance node of the network occurs exactly
+//                once in the enumeration; stated, used only by lemma_every_{segment,slot}_exactly_once.
+// NOT covered: that `train_formation_of(n)` is exactly the set of vehicles whose tour contains n (C03
+// "trip perspective equals vehicle perspective") is an invariant of Schedule (C10), not of the writer; the
+// writer obligations are that the trip view prints train_formation_of(n) and the vehicle view prints the tours.
 #![feature(allocator_api)]
 use vstd::prelude::*;
 use std::ops::Add;
@@ -152,6 +197,7 @@ use self::im_set::HashSet;
         proof {
             lemma_tour_kinds(tour, 0);
             lemma_tour_kinds(tour, nodes.len() - 1);
+            lemma_legs_schedulable(net, tour);
         }
 //@loop "for (node1_idx, node2_idx)"
         invariant
@@ -160,14 +206,15 @@ use self::im_set::HashSet;
             nodes == schedule.tours@[vehicle_idx].nodes@,
             tour == &schedule.tours@[vehicle_idx],
             vehicle_ok(schedule, vehicle_idx),
+            legs_schedulable(net, nodes),
             it.snapshot@@.len() == nodes.len() - 1,
             forall|k: int| 0 <= k < it.snapshot@@.len() ==> #[trigger] it.snapshot@@[k] == (nodes[k], nodes[k + 1]),
             0 <= it.index@ <= it.snapshot@@.len(),
             dead_head_trips_counter == dead_head_trips@.len(),
-            segments_ok(net, nodes.subrange(0, it.index@ + 1), departure_segments@),
-            slots_ok(net, nodes.subrange(0, it.index@ + 1), maintenance_slots@),
-            dhts_ok(net, nodes, it.index@ as int, dead_head_trips@),
-            dht_list_grown(vehicle_idx, dht0, dead_head_trips@, dead_head_trips_with_formation@),
+            segments_ok(net, nodes.subrange(0, it.index@ + 1), departure_segments@), // @obl C03.vehicle_to_json.departure_segments_are_the_service_nodes
+            slots_ok(net, nodes.subrange(0, it.index@ + 1), maintenance_slots@), // @obl C03.vehicle_to_json.maintenance_slots_are_the_maintenance_nodes
+            dhts_ok(net, nodes, it.index@ as int, dead_head_trips@), // @obl C03.vehicle_to_json.dead_head_trips_are_the_location_changes
+            dht_list_grown(vehicle_idx, dht0, dead_head_trips@, dead_head_trips_with_formation@), // @obl C03.vehicle_to_json.fleet_list_grows_by_these_trips
 //@before "for (node1_idx, node2_idx)"
         proof {
             // the first node is a start depot: nothing is listed for it
@@ -190,36 +237,36 @@ use self::im_set::HashSet;
 //@before "let (departure_time, arrival_time)"
                 assert(loc_change(net, nodes[it.index@ as int], nodes[it.index@ + 1]));
 //@after "let (departure_time, arrival_time)"
-                assert(in_gap(net, node1_idx, node2_idx, departure_time, arrival_time));
+                assert(in_gap(net, node1_idx, node2_idx, departure_time, arrival_time)); // @obl C03.vehicle_to_json.dead_head_trip_inside_the_gap
 //@after "dead_head_trips_with_formation.push"
                 proof {
                     let k = it.index@ as int;
                     let n = dead_head_trips@.len() - 1;
-                    assert(is_dht_entry(net, nodes[k], nodes[k + 1], n, &dead_head_trips@[n]));
-                    assert(change_legs(net, nodes, k + 1) == change_legs(net, nodes, k).push(k));
-                    assert(dhts_ok(net, nodes, k + 1, dead_head_trips@));
-                    assert(is_dht_copy(vehicle_idx, &dead_head_trips@[n], &dead_head_trips_with_formation@[dht0.len() + n]));
-                    assert(dht_list_grown(vehicle_idx, dht0, dead_head_trips@, dead_head_trips_with_formation@));
+                    assert(is_dht_entry(net, nodes[k], nodes[k + 1], n, &dead_head_trips@[n])); // @obl C03.vehicle_to_json.dead_head_trip_entry_has_the_legs_own_data
+                    assert(change_legs(net, nodes, k + 1) == change_legs(net, nodes, k).push(k)); // @obl C03.vehicle_to_json.dead_head_trips_are_the_location_changes
+                    assert(dhts_ok(net, nodes, k + 1, dead_head_trips@)); // @obl C03.vehicle_to_json.dead_head_trips_are_the_location_changes
+                    assert(is_dht_copy(vehicle_idx, &dead_head_trips@[n], &dead_head_trips_with_formation@[dht0.len() + n])); // @obl C03.vehicle_to_json.fleet_list_copy_has_formation_of_the_vehicle
+                    assert(dht_list_grown(vehicle_idx, dht0, dead_head_trips@, dead_head_trips_with_formation@)); // @obl C03.vehicle_to_json.fleet_list_grows_by_these_trips
                 }
 //@before "match node2"
             proof {
                 let k = it.index@ as int;
-                assert(change_legs(net, nodes, k + 1) == (if loc_change(net, nodes[k], nodes[k + 1]) { change_legs(net, nodes, k).push(k) } else { change_legs(net, nodes, k) }));
-                assert(dhts_ok(net, nodes, k + 1, dead_head_trips@));
+                assert(change_legs(net, nodes, k + 1) == (if loc_change(net, nodes[k], nodes[k + 1]) { change_legs(net, nodes, k).push(k) } else { change_legs(net, nodes, k) })); // @obl C03.vehicle_to_json.dead_head_trips_are_the_location_changes
+                assert(dhts_ok(net, nodes, k + 1, dead_head_trips@)); // @obl C03.vehicle_to_json.dead_head_trips_are_the_location_changes
             }
 //@after "departure_segments.push"
                 proof {
                     let k = it.index@ as int;
                     let n = departure_segments@.len() - 1;
-                    assert(is_segment_entry(net, nodes[k + 1], &departure_segments@[n]));
-                    assert(segments_ok(net, nodes.subrange(0, k + 2), departure_segments@));
+                    assert(is_segment_entry(net, nodes[k + 1], &departure_segments@[n])); // @obl C03.vehicle_to_json.departure_segment_entry_has_the_nodes_own_data
+                    assert(segments_ok(net, nodes.subrange(0, k + 2), departure_segments@)); // @obl C03.vehicle_to_json.departure_segments_are_the_service_nodes
                 }
 //@after "maintenance_slots.push"
                 proof {
                     let k = it.index@ as int;
                     let n = maintenance_slots@.len() - 1;
-                    assert(is_slot_entry(net, nodes[k + 1], &maintenance_slots@[n]));
-                    assert(slots_ok(net, nodes.subrange(0, k + 2), maintenance_slots@));
+                    assert(is_slot_entry(net, nodes[k + 1], &maintenance_slots@[n])); // @obl C03.vehicle_to_json.maintenance_slot_entry_has_the_nodes_own_data
+                    assert(slots_ok(net, nodes.subrange(0, k + 2), maintenance_slots@)); // @obl C03.vehicle_to_json.maintenance_slots_are_the_maintenance_nodes
                 }
 //@before "JsonVehicle {"
         proof {
@@ -299,8 +346,8 @@ use self::im_set::HashSet;
             vs == type_vehicles(schedule, vehicle_type),
             it.snapshot@@ == vs,
             0 <= it.index@ <= vs.len(),
-            vehicles_listed(schedule, vs.subrange(0, it.index@ as int), vehicles@),
-            fleet_dht_grown(vs, vehicles@, dht0, dead_head_trips_with_formation@),
+            vehicles_listed(schedule, vs.subrange(0, it.index@ as int), vehicles@), // @obl C03.fleet_to_json.every_vehicle_with_its_itinerary
+            fleet_dht_grown(vs, vehicles@, dht0, dead_head_trips_with_formation@), // @obl C03.fleet_to_json.fleet_list_grows_by_the_vehicles_trips
 //@before "vehicles.push"
             let ghost veh1 = vehicles@;
             let ghost dht1 = dead_head_trips_with_formation@;
@@ -312,10 +359,10 @@ use self::im_set::HashSet;
                 let dht2 = dead_head_trips_with_formation@;
                 assert(vehicles@ == veh1.push(x));
                 assert(vs.subrange(0, k + 1) =~= vs.subrange(0, k).push(vs[k]));
-                assert(is_vehicle_json(&schedule.network, vs[k], schedule.tours@[vs[k]].nodes@, &vehicles@[k]));
+                assert(is_vehicle_json(&schedule.network, vs[k], schedule.tours@[vs[k]].nodes@, &vehicles@[k])); // @obl C03.fleet_to_json.every_vehicle_with_its_itinerary
                 assert(dht_list_grown(vs[k], dht1, x.dead_head_trips@, dht2));
                 lemma_dht_total_prefix(vehicles@, veh1, k);
-                assert forall|i: int, j: int| 0 <= i < vehicles@.len() && 0 <= j < vehicles@[i].dead_head_trips@.len()
+                assert forall|i: int, j: int| 0 <= i < vehicles@.len() && 0 <= j < vehicles@[i].dead_head_trips@.len() // @obl C03.fleet_to_json.fleet_list_grows_by_the_vehicles_trips
                     implies is_dht_copy(vs[i], #[trigger] &vehicles@[i].dead_head_trips@[j], &dht2[dht0.len() + dht_total(vehicles@, i) + j]) by {
                     lemma_dht_total_prefix(vehicles@, veh1, i);
                     lemma_dht_total_mono(veh1, i, k);
@@ -338,14 +385,14 @@ use self::im_set::HashSet;
             it.snapshot@@.len() == cs.len(),
             forall|i: int| 0 <= i < cs.len() ==> *(#[trigger] it.snapshot@@[i]) == cs[i],
             0 <= it.index@ <= cs.len(),
-            cycles_listed(cs.subrange(0, it.index@ as int), vehicle_cycles@),
+            cycles_listed(cs.subrange(0, it.index@ as int), vehicle_cycles@), // @obl C05.fleet_to_json.cycles_emitted_verbatim
 //@before "vehicle_cycles.push"
             broadcast use group_text;
 //@after "vehicle_cycles.push"
             proof {
                 let k = it.index@ as int;
                 assert(cs.subrange(0, k + 1) =~= cs.subrange(0, k).push(cs[k]));
-                assert(ids_listed(cs[k].cycle@, vehicle_cycles@[k]@));
+                assert(ids_listed(cs[k].cycle@, vehicle_cycles@[k]@)); // @obl C05.fleet_to_json.cycles_emitted_verbatim
             }
 //@before "JsonFleet {"
         proof {
@@ -354,6 +401,301 @@ use self::im_set::HashSet;
         }
 //@end
 
+// ---- departure_segments_to_json / maintenance_slots_to_json -----------------------------------------------
+/// A-iter: `VehicleTypes::iter` yields the ids of `ids_sorted` in order (`self.ids_sorted.iter().cloned()`)
+//@item model/src/vehicle_types.rs VehicleTypes::iter : trusted
+//@ret SeqIter<VehicleTypeIdx>
+//@retname r
+//@sig
+    ensures r@ == self.ids_sorted@,
+//@end
+/// A-iter: `Network::service_nodes` yields the type's list in order (`self.service_nodes[&vt].iter().copied()`;
+/// indexing a HashMap with a missing key panics)
+//@item model/src/network.rs Network::service_nodes : trusted
+//@ret SeqIter<NodeIdx>
+//@retname r
+//@sig
+    requires self.service_nodes@.contains_key(vehicle_type),
+    ensures r@ == self.service_nodes@[vehicle_type]@,
+//@end
+/// A-iter: `Network::maintenance_nodes` yields the list in order (`self.maintenance_nodes.iter().copied()`)
+//@item model/src/network.rs Network::maintenance_nodes : trusted
+//@ret SeqIter<NodeIdx>
+//@retname r
+//@sig
+    ensures r@ == self.maintenance_nodes@,
+//@end
+/// A-iter: `TrainFormation::iter` yields the vehicles front to tail (`self.formation.iter()`)
+//@item solution/src/train_formation.rs TrainFormation::iter : trusted
+//@ret SeqIter<&Vehicle>
+//@retname r
+//@sig
+    ensures r@.len() == self.formation@.len(), forall|i: int| 0 <= i < r@.len() ==> *(#[trigger] r@[i]) == self.formation@[i],
+//@end
+//@item solution/src/vehicle.rs Vehicle::idx
+//@retname r
+//@sig
+    ensures r == self.idx,
+//@end
+//@item model/src/network/nodes.rs Node::as_service_trip
+//@retname r
+//@sig
+    requires self is Service,
+    ensures *r == self->Service_0.1,
+//@end
+//@item model/src/network/nodes.rs Node::as_maintenance_slot
+//@retname r
+//@sig
+    requires self is Maintenance,
+    ensures *r == self->Maintenance_0.1,
+//@end
+//@item solution/src/schedule.rs Schedule::train_formation_of
+//@retname r
+//@sig
+    requires self.train_formations@.contains_key(node),
+    ensures *r == self.train_formations@[node],
+//@end
+
+//@item solution/src/json_serialisation.rs fn departure_segments_to_json
+//@retname r
+//@sig
+    requires segments_pre(schedule),
+    ensures
+        // one entry per (vehicle type, service node of the type's index), in enumeration order, with the node's own data
+        segments_listed(schedule, all_seg_rows(&schedule.network), r@), // @obl C03.departure_segments.formation_is_train_formation
+//@closure-params 0
+    &Vehicle
+//@closure 0
+    -> (t: String) ensures t@ == vid_text(vehicle.idx)
+//@first
+        broadcast use group_text;
+        let ghost net = &schedule.network;
+        let ghost types = schedule.network.vehicle_types.ids_sorted@;
+//@loop "for vehicle_type in"
+        invariant
+            network == schedule.network, net == &schedule.network, segments_pre(schedule),
+            types == schedule.network.vehicle_types.ids_sorted@,
+            it.snapshot@@ == types,
+            0 <= it.index@ <= types.len(),
+            segments_listed(schedule, seg_rows(net, types, it.index@ as int), departure_segments@), // @obl C03.departure_segments.formation_is_train_formation
+//@before "for service_trip_node_idx in"
+            let ghost ti = it.index@ as int;
+            let ghost ns = net.service_nodes@[vehicle_type]@;
+            proof { assert(vehicle_type == types[ti]); assert(ns.subrange(0, 0) =~= Seq::<NodeIdx>::empty());
+                assert(seg_rows(net, types, ti) + rows_of_type(vehicle_type, ns.subrange(0, 0)) =~= seg_rows(net, types, ti)); }
+//@loop "for service_trip_node_idx in"
+            invariant
+                network == schedule.network, net == &schedule.network, segments_pre(schedule),
+                types == schedule.network.vehicle_types.ids_sorted@,
+                0 <= ti < types.len(), vehicle_type == types[ti],
+                ns == net.service_nodes@[vehicle_type]@,
+                it.snapshot@@ == ns,
+                0 <= it.index@ <= ns.len(),
+                segments_listed(schedule, seg_rows(net, types, ti) + rows_of_type(vehicle_type, ns.subrange(0, it.index@ as int)), departure_segments@), // @obl C03.departure_segments.formation_is_train_formation
+//@before "let service_trip_node ="
+                broadcast use group_text;
+                proof {
+                    let j = it.index@ as int;
+                    assert(service_trip_node_idx == net.service_nodes@[types[ti]]@[j]);
+                    assert(net.nodes@.contains_key(service_trip_node_idx));
+                }
+//@after "departure_segments.push"
+                proof {
+                    let j = it.index@ as int;
+                    let n = departure_segments@.len() - 1;
+                    let rows0 = seg_rows(net, types, ti) + rows_of_type(vehicle_type, ns.subrange(0, j));
+                    let rows1 = seg_rows(net, types, ti) + rows_of_type(vehicle_type, ns.subrange(0, j + 1));
+                    assert(rows1 =~= rows0.push((vehicle_type, ns[j])));
+                    assert(is_segment_row(schedule, vehicle_type, service_trip_node_idx, &departure_segments@[n])); // @obl C03.departure_segments.entry_has_the_nodes_own_data_and_formation
+                }
+//@after "for service_trip_node_idx in"
+            proof {
+                assert(ns.subrange(0, ns.len() as int) =~= ns);
+            }
+//@end
+
+//@item solution/src/json_serialisation.rs fn maintenance_slots_to_json
+//@retname r
+//@sig
+    requires slots_pre(schedule),
+    ensures
+        // one entry per maintenance node of the network's list, in order, with the node's own data
+        slots_listed(schedule, schedule.network.maintenance_nodes@, r@), // @obl C03.maintenance_slots.formation_is_train_formation
+//@closure-params 0
+    &Vehicle
+//@closure 0
+    -> (t: String) ensures t@ == vid_text(vehicle.idx)
+//@first
+        broadcast use group_text;
+        let ghost net = &schedule.network;
+        let ghost ns = schedule.network.maintenance_nodes@;
+//@loop "for maintenance_node_idx in"
+        invariant
+            network == schedule.network, net == &schedule.network, slots_pre(schedule),
+            ns == schedule.network.maintenance_nodes@,
+            it.snapshot@@ == ns,
+            0 <= it.index@ <= ns.len(),
+            slots_listed(schedule, ns.subrange(0, it.index@ as int), maintenance_slots@), // @obl C03.maintenance_slots.formation_is_train_formation
+//@before "let maintenance_node ="
+            broadcast use group_text;
+            proof {
+                let j = it.index@ as int;
+                assert(maintenance_node_idx == net.maintenance_nodes@[j]);
+                assert(net.nodes@.contains_key(maintenance_node_idx));
+            }
+//@after "maintenance_slots.push"
+            proof {
+                let j = it.index@ as int;
+                let n = maintenance_slots@.len() - 1;
+                assert(ns.subrange(0, j + 1) =~= ns.subrange(0, j).push(ns[j]));
+                assert(is_slot_row(schedule, maintenance_node_idx, &maintenance_slots@[n])); // @obl C03.maintenance_slots.entry_has_the_nodes_own_data_and_formation
+            }
+//@after "for maintenance_node_idx in"
+        proof { assert(ns.subrange(0, ns.len() as int) =~= ns); }
+//@end
+
+// ---- depot usage ------------------------------------------------------------------------------------------
+//@item solution/src/schedule.rs Schedule::get_vehicle_types
+//@retname r
+//@sig
+    ensures r == self.network.vehicle_types,
+//@end
+// verified in slice admission (same contract text)
+//@item solution/src/schedule.rs Schedule::number_of_vehicles_of_same_type_spawned_at_custom_usage : trusted
+//@retname r
+//@sig
+    requires spawned_of_type(depot_usage@, depot, vehicle_type) <= u32::MAX,
+    ensures r == spawned_of_type(depot_usage@, depot, vehicle_type), // @obl C02.spawned_of_same_type.count
+//@end
+//@item solution/src/schedule.rs Schedule::number_of_vehicles_of_same_type_spawned_at
+//@retname r
+//@sig
+    requires spawned_of_type(self.depot_usage@, depot, vehicle_type) <= u32::MAX,
+    ensures r == spawned_of_type(self.depot_usage@, depot, vehicle_type),
+//@end
+// sibling accessor (stub, present so that a call to it type-checks; its total over all types is an opaque
+// number here, verified as a sum over the types in slice admission)
+pub uninterp spec fn spawned_all_types(du: UsageMap, d: DepotIdx) -> nat;
+//@item solution/src/schedule.rs Schedule::number_of_vehicles_spawned_at : trusted
+//@retname r
+//@sig
+    ensures r == spawned_all_types(self.depot_usage@, depot),
+//@end
+/// A-iter: `Network::depots_iter` yields every depot of the depot table exactly once, in an unspecified
+/// order (`self.depots.keys().copied()`)
+//@item model/src/network.rs Network::depots_iter : trusted
+//@ret SeqIter<DepotIdx>
+//@retname r
+//@sig
+    ensures r@ == depot_order(self), r@.no_duplicates(),
+        forall|d: DepotIdx| #[trigger] r@.contains(d) <==> self.depots@.contains_key(d),
+//@end
+
+//@item solution/src/json_serialisation.rs fn depot_usage_to_json
+//@retname r
+//@sig
+    requires usage_pre(schedule, depot_idx),
+    ensures
+        depot_loads_ok(schedule, depot_idx, r@), // @obl C03.depot_usage_to_json.one_load_per_spawning_type_with_its_count
+//@first
+        let ghost types = schedule.network.vehicle_types.ids_sorted@;
+        let ghost du = schedule.depot_usage@;
+//@loop "for vehicle_type in"
+        invariant
+            network == schedule.network, usage_pre(schedule, depot_idx),
+            types == schedule.network.vehicle_types.ids_sorted@, du == schedule.depot_usage@,
+            it.snapshot@@ == types,
+            0 <= it.index@ <= types.len(),
+            loads_listed(schedule, depot_idx, spawning_types(du, depot_idx, types, it.index@ as int), loads@), // @obl C03.depot_usage_to_json.one_load_per_spawning_type_with_its_count
+//@before "let spawn_count"
+            proof { assert(vehicle_type == types[it.index@ as int]); }
+//@end
+
+//@item solution/src/json_serialisation.rs fn depots_usage_to_json
+//@retname r
+//@sig
+    requires forall|d: DepotIdx| schedule.network.depots@.contains_key(d) ==> #[trigger] usage_pre(schedule, d),
+    ensures
+        // every depot of the depot table exactly once (in `depots_iter` order) with its id and its loads
+        depots_listed(schedule, depot_order(&schedule.network), r@), // @obl C03.depots_usage_to_json.every_depot_with_its_loads
+        depot_order(&schedule.network).no_duplicates(),
+        forall|d: DepotIdx| #[trigger] depot_order(&schedule.network).contains(d) <==> schedule.network.depots@.contains_key(d),
+//@first
+        let ghost ds = depot_order(&schedule.network);
+//@loop "for depot_idx in"
+        invariant
+            network == schedule.network,
+            forall|d: DepotIdx| schedule.network.depots@.contains_key(d) ==> #[trigger] usage_pre(schedule, d),
+            ds == depot_order(&schedule.network),
+            forall|d: DepotIdx| #[trigger] ds.contains(d) <==> schedule.network.depots@.contains_key(d),
+            it.snapshot@@ == ds,
+            0 <= it.index@ <= ds.len(),
+            depots_listed(schedule, ds.subrange(0, it.index@ as int), depot_loads@), // @obl C03.depots_usage_to_json.every_depot_with_its_loads
+//@before "let depot ="
+            proof { assert(ds.contains(ds[it.index@ as int])); }
+//@after "depot_loads.push"
+            proof {
+                let k = it.index@ as int;
+                assert(ds.subrange(0, k + 1) =~= ds.subrange(0, k).push(ds[k]));
+            }
+//@after "for depot_idx in"
+        proof { assert(ds.subrange(0, ds.len() as int) =~= ds); }
+//@end
+
+// ---- schedule_to_json ---------------------------------------------------------------------------------------
+//@item solution/src/json_serialisation.rs fn schedule_to_json
+//@retname r
+//@sig
+    requires document_pre(schedule),
+    ensures
+        is_schedule_json(schedule, &serde_json::doc_of(r)), // @obl C03.schedule_to_json.document_assembled_from_the_parts
+//@first
+        let ghost types = schedule.network.vehicle_types.ids_sorted@;
+//@loop "for vehicle_type in"
+        invariant
+            document_pre(schedule),
+            types == schedule.network.vehicle_types.ids_sorted@,
+            it.snapshot@@ == types,
+            0 <= it.index@ <= types.len(),
+            fleets_listed(schedule, types.subrange(0, it.index@ as int), fleet@), // @obl C03.schedule_to_json.every_fleet_listed
+            all_dhts_listed(schedule, types, fleet@, dead_head_trips@), // @obl C03.schedule_to_json.dead_head_list_is_the_vehicles_trips
+//@before "fleet.push"
+            let ghost fleet1 = fleet@;
+            let ghost list1 = dead_head_trips@;
+            proof { assert(type_ok(schedule, types[it.index@ as int])); }
+//@after "fleet.push"
+            proof {
+                let k = it.index@ as int;
+                let x = fleet@[k];
+                let list2 = dead_head_trips@;
+                let vs = type_vehicles(schedule, types[k]);
+                assert(fleet@ == fleet1.push(x));
+                assert(types.subrange(0, k + 1) =~= types.subrange(0, k).push(types[k]));
+                assert(is_fleet_json(schedule, types[k], &fleet@[k])); // @obl C03.schedule_to_json.every_fleet_listed
+                assert(fleet_dht_grown(vs, x.vehicles@, list1, list2));
+                lemma_fleet_total_prefix(fleet@, fleet1, k);
+                assert forall|t: int, i: int, j: int| 0 <= t < fleet@.len() && 0 <= i < fleet@[t].vehicles@.len() && 0 <= j < fleet@[t].vehicles@[i].dead_head_trips@.len() // @obl C03.schedule_to_json.dead_head_list_is_the_vehicles_trips
+                    implies is_dht_copy(type_vehicles(schedule, types[t])[i], #[trigger] &fleet@[t].vehicles@[i].dead_head_trips@[j],
+                        &list2[fleet_total(fleet@, t) + dht_total(fleet@[t].vehicles@, i) + j]) by {
+                    lemma_fleet_total_prefix(fleet@, fleet1, t);
+                    lemma_dht_slot_in_block(fleet@[t].vehicles@, i, j);
+                    lemma_fleet_total_mono(fleet1, 0, t);
+                    if t < k {
+                        lemma_fleet_total_mono(fleet1, t + 1, k);
+                        let idx = fleet_total(fleet1, t) + dht_total(fleet1[t].vehicles@, i) + j;
+                        assert(is_dht_copy(type_vehicles(schedule, types[t])[i], &fleet1[t].vehicles@[i].dead_head_trips@[j], &list1[idx]));
+                        assert(list2[idx] == list1[idx]);
+                    } else {
+                        assert(is_dht_copy(vs[i], &x.vehicles@[i].dead_head_trips@[j], &list2[list1.len() + dht_total(x.vehicles@, i) + j]));
+                    }
+                }
+            }
+//@before "let schedule_json ="
+        proof { assert(types.subrange(0, types.len() as int) =~= types); }
+//@end
+
 } // mod tr
 } // verus!
+// `Result<Value, Error>::unwrap` needs `Error: Debug` (shim type of env/json_writer_shim.vs)
+impl std::fmt::Debug for tr::serde_json::Error { fn fmt(&self, _f: &mut std::fmt::Formatter) -> std::fmt::Result { Ok(()) } }
 fn main() {}
